@@ -637,11 +637,14 @@ bool Interpret::getAssignment() const {
     std::ostringstream ss;
     auto const & termNames = solver.getTermNames();
     ss << '(';
+    bool anyName = false;
     for (auto const & [name, term] : termNames) {
         lbool val = solver.getTermValue(term);
         ss << '(' << name << ' ' << (val == l_True ? "true" : (val == l_False ? "false" : "unknown")) << ')' << " ";
+        anyName = true;
     }
-    ss.seekp(-1, std::ios::cur);
+    // Overwrite the trailing space; without any named term there is none and the opening parenthesis must stay
+    if (anyName) { ss.seekp(-1, std::ios::cur); }
     ss << ')';
     notify_formatted(false, ss.str().c_str());
     return true;
